@@ -112,6 +112,11 @@ def gen_cases(ctx):
             for n_tasks in range(1, NT + 1):
                 for n_batches in range(1, NB + 1):
                     cases.append(dict(family="bt", n_tasks=n_tasks, n_batches=n_batches, start=start, with_arr=with_arr))
+    # the same (n_tasks, n_batches) again and again, back to back, with changing start indices: a call must not depend on the calls before it
+    for n_tasks, n_batches in ((10, 3), (7, 7), (24, 5), (3, 8), (100, 16)):
+        for start in (20, 0, 20, 5, 5, 0):
+            for with_arr in (False, True):
+                cases.append(dict(family="bt", n_tasks=n_tasks, n_batches=n_batches, start=start, with_arr=with_arr))
     rng = rng_for(ctx, 16)
     n_big = 200 if ctx.tier == "quick" else 3000
     for _ in range(n_big):
